@@ -20,7 +20,7 @@
     prune_automorphisms / mcs_mol (such steps are [HExternal]: the value-determined part of their answer is computed by the
     functions of C12_Model.v, the object's state after them is not tracked). *)
 From Coq Require Import List NArith ZArith Bool Arith.
-From SK Require Import lib.Tok lib.LGraph lib.Mono lib.Reach model.C12_Model model.C12_Trace model.C12_Check.
+From SK Require Import lib.Tok lib.LGraph lib.Mono lib.Reach model.C12_Model model.C12_Trace model.C12_Check model.C12_CheckMtg.
 Import ListNotations.
 
 (* ---------- raw attribute dictionaries ---------- *)
@@ -298,7 +298,8 @@ Definition run_ctor (a : ctor_args) : tok :=
 (* ====================================================================== the MTG copy as an object ========== *)
 (** synkit/Graph/MTG/mcs_matcher.py: __init__ (names None -> ["element"], defaults None -> ["*"] * len; NO length test --
     generic_node_match zips names, defaults and comparators, so the shortest list decides), one edge attribute,
-    _edge_match: float() of both .get() results, any exception (missing value, value float() rejects) -> False;
+    _edge_match (after repair /repo 24a0150): both values missing -> True, float() of both, an exception (one value missing, or a
+    value float() rejects) -> ==;
     cache = (_mappings, _last_size), cleared at the start of find_common_subgraph; find_rc_mapping = right side of rc1
     against left side of rc2; get_mappings() = the stored list. *)
 Record mtg_args := { ma_names : option (list N); ma_defs : option (list N); ma_edge : N }.
@@ -312,12 +313,14 @@ Definition mk_config_mtg (a : mtg_args) : config :=
 
 Definition edge_match_mtg_raw (k : N) (h p : reattr) : bool :=
   match LGraph.assoc k h, LGraph.assoc k p with
-  | Some (ENum a), Some (ENum b) => Z.eqb a b
+  | None, None => true                                      (* both bonds lack the attribute (repair /repo 24a0150) *)
+  | Some (ENum a), Some (ENum b) => Z.eqb a b               (* float(hv) == float(pv) *)
+  | Some a, Some b => evalue_eqb a b                        (* float() raised: hv == pv *)
   | _, _ => false
   end.
 
 Definition project_edge_mtg (cfg : config) (a : reattr) : eattr :=
-  map (fun k => match LGraph.assoc k a with Some (ENum z) => Some z | _ => None end) (c_enames cfg).
+  map (fun k => option_map evalue_code (LGraph.assoc k a)) (c_enames cfg).
 Definition project_mtg (cfg : config) (g : rgraph) : graph :=
   LG (map (fun na => (fst na, project_node cfg (snd na))) (gnodes g))
      (map (fun e => (fst e, project_edge_mtg cfg (snd e))) (gedges g)).
@@ -328,7 +331,9 @@ Definition t_init : tstate := {| t_maps := []; t_last := 0 |}.
 Inductive top :=
 | TFind (g1 g2 : rgraph) (mcs : bool)
 | TRc (x : rc_input) (mcs : bool)
-| TRead.
+| TRead
+| TFindMol (g1 g2 : rgraph) (choice : mapping)      (* find_common_subgraph(G1, G2, mcs_mol=True); VF2's isomorphisms are an input *)
+| TRcMol (x : rc_input) (choice : mapping).         (* find_rc_mapping(rc1, rc2, mcs_mol=True): forwarded to the right / left sides *)
 
 Definition t_find (cfg : config) (g1 g2 : rgraph) (mcs : bool) : tstate * nat :=
   let r := find_common_subgraph_mtg (c_defs cfg) (project_mtg cfg g1) (project_mtg cfg g2) mcs in
@@ -339,11 +344,19 @@ Definition t_find_tok (cfg : config) (g1 g2 : rgraph) (mcs : bool) : tstate * to
   (st', L [tnat (t_last st'); tnat n; tmaps (t_maps st');
            ttrace (mtg_trace (c_defs cfg) (project_mtg cfg g1) (project_mtg cfg g2) mcs)]).
 
+Definition t_mol_tok (cfg : config) (g1 g2 : rgraph) (choice : mapping) : tstate * tok :=
+  match find_mcs_mol_with_mtg (c_defs cfg) (project_mtg cfg g1) (project_mtg cfg g2) choice with
+  | Some (maps, last, n) => ({| t_maps := maps; t_last := last |}, L [tnat last; tnat n; tmaps maps])
+  | None => (t_init, L [I (-2)])
+  end.
+
 Definition t_step (cfg : config) (st : tstate) (o : top) : tstate * tok :=
   match o with
   | TFind g1 g2 mcs => t_find_tok cfg g1 g2 mcs
   | TRc x mcs => t_find_tok cfg (rc_r1 x) (rc_l2 x) mcs
   | TRead => (st, L [tnat (t_last st); tmaps (t_maps st)])
+  | TFindMol g1 g2 choice => t_mol_tok cfg g1 g2 choice
+  | TRcMol x choice => t_mol_tok cfg (rc_r1 x) (rc_l2 x) choice
   end.
 
 Fixpoint t_run (cfg : config) (st : tstate) (ops : list top) : tstate :=
